@@ -627,7 +627,7 @@ func (b *bodyRun) runLoop(li *loopInfo) {
 		// an invariant that names a local the code no longer has is dropped with
 		// a note (the derived invariant below may still carry the proof); it is
 		// never a reason to stop
-		if msg := b.invResolves(inv, names, stIn, label, ctrPhi); msg != "" {
+		if msg := b.invResolves(inv, names, stIn, label, ctrPhi, li); msg != "" {
 			e.note("%s: invariant `%s` not used: %s", label, inv.Text, msg)
 			continue
 		}
@@ -639,6 +639,24 @@ func (b *bodyRun) runLoop(li *loopInfo) {
 					if p.Comment != "" {
 						over[p.Comment] = func(*State) Value { return v }
 					}
+				}
+			}
+			// loopvar("T"): the loop-carried variable of type T when there is
+			// exactly one (a name-independent way to mention it)
+			byType := map[string][]*ssa.Phi{}
+			for _, p := range phis {
+				byType[p.Type().String()] = append(byType[p.Type().String()], p)
+			}
+			for ts, ps := range byType {
+				if len(ps) != 1 {
+					continue
+				}
+				p := ps[0]
+				over["#loopvar:"+ts] = func(s2 *State) Value {
+					if phiVals != nil {
+						return phiVals[p]
+					}
+					return s2.env[p]
 				}
 			}
 			if ctrPhi != nil {
@@ -1076,7 +1094,7 @@ func markFresh(v Value) {
 
 // invResolves evaluates an invariant once at the loop entry state and reports
 // why it cannot be evaluated ("" when it can).
-func (b *bodyRun) invResolves(inv Clause, names map[string]nameBinding, st *State, label string, ctrPhi *ssa.Phi) (msg string) {
+func (b *bodyRun) invResolves(inv Clause, names map[string]nameBinding, st *State, label string, ctrPhi *ssa.Phi, li *loopInfo) (msg string) {
 	e := b.e
 	defer func() {
 		if r := recover(); r != nil {
@@ -1090,9 +1108,20 @@ func (b *bodyRun) invResolves(inv Clause, names map[string]nameBinding, st *Stat
 	e.dry++
 	defer func() { e.dry-- }()
 	nax := len(e.Axioms)
-	var over map[string]specVar
+	over := map[string]specVar{}
 	if ctrPhi != nil {
-		over = map[string]specVar{"loopindex": func(s2 *State) Value { return s2.env[ctrPhi] }}
+		over["loopindex"] = func(s2 *State) Value { return s2.env[ctrPhi] }
+	}
+	for _, ins := range li.header.Instrs {
+		p, ok := ins.(*ssa.Phi)
+		if !ok {
+			break
+		}
+		p2 := p
+		if _, dup := over["#loopvar:"+p.Type().String()]; dup {
+			continue
+		}
+		over["#loopvar:"+p.Type().String()] = func(s2 *State) Value { return s2.env[p2] }
 	}
 	e.evalSpecBool(inv, b.specVars(names, over), st.clone(), e.entryState(), label+" invariant")
 	e.Axioms = e.Axioms[:nax]
